@@ -20,4 +20,5 @@ for d in seeded/C*_*; do
   echo "| $id | $p | $rc | ${v:-(none)} |" >> $out
   echo "$id rc=$rc"
 done
+/venv/bin/python tools/translate.py >/dev/null 2>&1
 git -C /repo status --short | head -3
